@@ -744,6 +744,20 @@ func backSlice(v ssa.Value) map[ssa.Value]bool {
 		// an array/slice backing store built locally (variadic packs, slice literals): include the
 		// values stored into its elements
 		if a, ok := x.(*ssa.Alloc); ok {
+			// a composite literal built in place: the values stored into its fields
+			if _, isStruct := a.Type().Underlying().(*types.Pointer).Elem().Underlying().(*types.Struct); isStruct {
+				if refs := a.Referrers(); refs != nil {
+					for _, r := range *refs {
+						if fa, ok := r.(*ssa.FieldAddr); ok && fa.Referrers() != nil {
+							for _, rr := range *fa.Referrers() {
+								if s, ok := rr.(*ssa.Store); ok && s.Addr == fa {
+									walk(s.Val)
+								}
+							}
+						}
+					}
+				}
+			}
 			if _, isArr := a.Type().Underlying().(*types.Pointer).Elem().Underlying().(*types.Array); isArr {
 				if refs := a.Referrers(); refs != nil {
 					for _, r := range *refs {
